@@ -1535,8 +1535,13 @@ def evaluate__serialize(self: XPathFunction, context: ta.ContextType = None) -> 
 
     elif method_ == 'json':
         return serialize_to_json(self[0].select(context), token=self, **kwargs)
-    else:
-        return ''
+
+    items = list(self[0].select(context))
+    if all(isinstance(x, XPathNode) for x in items):
+        # adaptive: nodes are written with the xml method, one per line
+        kwargs.update(method='xml', item_separator=kwargs.get('item_separator', '\n'))
+        return serialize_to_xml(items, context.etree, **kwargs)
+    return ''
 
 
 ###
